@@ -218,5 +218,18 @@ Proof.
   - intros f Hlt. rewrite (H3 f Hlt). cbn [row_flog rl_cost]. rewrite (entry_map (fun r0 => fcost c r0 f) h i r Er). apply Hfc.
 Qed.
 
+Theorem absence_row_logged i r : nth_error h i = Some r -> fst r = false ->
+  (forall w, w < nW c -> nth_error (rl_st (wl s w)) i = Some RAbsence)
+  /\ (forall f, f < nF c -> nth_error (rl_st (fl s f)) i = Some RAbsence).
+Proof.
+  intros Er Hf. destruct HL as (_ & H2 & H3 & _). split.
+  - intros w Hw. rewrite (H2 w Hw). unfold row_wlog. cbn [rl_st].
+    assert (E : disp_r (fst r) (rst (wd (snd r) w)) = RAbsence) by (rewrite Hf; reflexivity).
+    rewrite <- E. apply (map_nth_error (fun r0 => disp_r (fst r0) (rst (wd (snd r0) w)))). exact Er.
+  - intros f Hlt. rewrite (H3 f Hlt). unfold row_flog. cbn [rl_st].
+    assert (E : disp_r (fst r) (rst (fd (snd r) f)) = RAbsence) by (rewrite Hf; reflexivity).
+    rewrite <- E. apply (map_nth_error (fun r0 => disp_r (fst r0) (rst (fd (snd r0) f)))). exact Er.
+Qed.
+
 End Cost.
 End C0708.
